@@ -215,6 +215,10 @@ var cliStreamCommands = []struct {
 	{"C06", []string{"revcomp"}},
 	{"C06", []string{"revcomp", "b"}},
 	{"C06", []string{"tolower"}},
+	{"C06", []string{"toupper"}},
+	{"C06", []string{"revcomp", "zz", "b", "c"}}, // a name no alignment has, before names they have
+	{"C06", []string{"revcomp", "c", "zz", "a"}},
+	{"C13", []string{"dedup", "-l", "@aux"}},
 	{"C05", []string{"translate", "--phase", "1"}},
 	{"C14", []string{"consensus"}},
 	{"C14", []string{"consensus", "--ignore-gaps"}},
@@ -245,11 +249,20 @@ func cliStreamCheck(c *mc.Ctx, box *cliBox, cs cliStreamCase) {
 	viol := func(clause, desc string) {
 		c.Violation(cs.Prop+"/cli-stream/"+cs.Args[0]+"/"+clause, fmt.Sprintf("%s: goalign %s -p on a stream of %d alignments %v", desc, strings.Join(cs.Args, " "), len(cs.Inputs), cs.Inputs), cs)
 	}
+	lastAux := ""
 	run := func(content string) (string, bool, bool) {
 		if !box.put(c, "in.phy", content) {
 			return "", false, false
 		}
 		args := append(append([]string{}, cs.Args...), "-p", "-i", "@in.phy")
+		// "@aux": an auxiliary output file of the command (a log); its content is part of what is compared
+		hasAux := false
+		for i, a := range args {
+			if a == "@aux" {
+				args[i], hasAux = box.path("aux.txt"), true
+			}
+		}
+		box.drop("aux.txt")
 		out, err, pn, msg, herr := box.runStdout(c, args...)
 		if herr {
 			return "", false, false
@@ -258,14 +271,19 @@ func cliStreamCheck(c *mc.Ctx, box *cliBox, cs cliStreamCase) {
 			viol("panic/"+mc.PanicSite(msg), msg)
 			return "", false, false
 		}
+		lastAux = ""
+		if hasAux {
+			lastAux, _ = box.get("aux.txt")
+		}
 		return out, err == nil, true
 	}
-	var want strings.Builder
+	var want, wantAux strings.Builder
 	var all strings.Builder
 	for _, in := range cs.Inputs {
 		ph := cliPhylip(in)
 		all.WriteString(ph)
 		o, ok, alive := run(ph)
+		wantAux.WriteString(lastAux)
 		if !alive {
 			return
 		}
@@ -288,6 +306,10 @@ func cliStreamCheck(c *mc.Ctx, box *cliBox, cs cliStreamCase) {
 	}
 	if got != want.String() {
 		viol("differs-from-one-by-one", fmt.Sprintf("the stream gives %q; the alignments one by one give %q", got, want.String()))
+		return
+	}
+	if lastAux != wantAux.String() {
+		viol("auxiliary-file-differs-from-one-by-one", fmt.Sprintf("for the stream the auxiliary file holds %q; for the alignments one by one %q", lastAux, wantAux.String()))
 		return
 	}
 	c.Outcome("cli-stream:" + cs.Args[0] + ":same")
@@ -335,4 +357,4 @@ func cliStreamReplay(c *mc.Ctx, payload []byte) bool {
 	return true
 }
 
-const cliStreamRule = " Command-line streams: for the commands of this property that read a Phylip file of several alignments (table cliStreamCommands in cli_layer.go), what the command prints for a stream of two or three alignments (every ordered pair and one triple of 3 alignments of different lengths whose reference row has its gaps at different columns) must be what it prints for each alignment alone, in order."
+const cliStreamRule = " Command-line streams: for the commands of this property that read a Phylip file of several alignments (table cliStreamCommands in cli_layer.go), what the command prints for a stream of two or three alignments (every ordered pair and one triple of 3 alignments of different lengths whose reference row has its gaps at different columns) must be what it prints for each alignment alone, in order (an auxiliary log file the command writes is compared the same way)."
